@@ -1258,3 +1258,59 @@ Section GzCreate.
     rewrite (contig_stream_name _ _ _ N1). apply presentation_invariant_lemma; auto.
   Qed.
 End GzCreate.
+
+(* ================================================================== C16 end to end, in model terms *)
+Lemma stream_multi_incl : forall files cs f t, stream_multi files = Ok cs -> In (f, t) files ->
+  exists rs, contig_stream f t = Ok rs /\ incl rs cs.
+Proof.
+  induction files as [|[f0 t0] fs IH]; intros cs f t H Hin; [destruct Hin|].
+  cbn [stream_multi] in H.
+  destruct (contig_stream f0 t0) as [x| |] eqn:E0; destruct (stream_multi fs) as [y| |] eqn:E1; simpl in H; try discriminate.
+  inversion H; subst cs. destruct Hin as [Hin|Hin].
+  - inversion Hin; subst. exists x. split; [exact E0 | apply incl_appl, incl_refl].
+  - destruct (IH y f t eq_refl Hin) as [rs [A B]]. exists rs. split; [exact A | apply incl_appr; exact B].
+Qed.
+
+Lemma contigs_of_in_arch : forall arch s x, In x (contigs_of arch s) -> In (s, contigs_of arch s) arch.
+Proof.
+  induction arch as [|[s' cs] arch IH]; intros s x H; [destruct H|].
+  cbn [contigs_of] in *. destruct (bytes_eqb s' s) eqn:E.
+  - apply list_eqb_eq in E. subst. left. reflexivity.
+  - right. eapply IH. exact H.
+Qed.
+
+Theorem create_view_complete_lemma : forall files v fname text r,
+  create_view files = Ok v -> In (fname, text) files -> first_line_ok text = true ->
+  In r (records text) -> rec_has_base r = true ->
+  exists contigs, In (sample_for fname (rec_name r), contigs) v /\ In (rec_name r, read_back (snd r)) contigs.
+Proof.
+  intros files v fname text r H Hin F Hr Hb. unfold create_view in H.
+  set (strm := match files with [(fname0, text0)] => stream_single fname0 text0 | _ => stream_multi files end) in H.
+  destruct strm as [cs| |] eqn:S; simpl in H; try discriminate.
+  destruct (collect [] cs) as [arch| |] eqn:C; simpl in H; try discriminate.
+  inversion H; subst v. clear H.
+  assert (X : exists rs, contig_stream fname text = Ok rs /\ incl rs cs).
+  { subst strm. destruct files as [|[f t] [|ft2 fs]].
+    - destruct Hin.
+    - destruct Hin as [Hin|[]]. inversion Hin; subst. unfold stream_single in S.
+      destruct (contig_stream fname text) as [cs'| |]; simpl in S; try discriminate.
+      destruct (sorted_go None [] cs'); [|discriminate]. inversion S; subst. exists cs. split; [reflexivity | apply incl_refl].
+    - eapply stream_multi_incl; eauto. }
+  destruct X as [rs [CS Incl]].
+  unfold contig_stream in CS.
+  destruct (no_record_lost text r F Hr Hb) as [E|[ps [P Pin]]]; [rewrite E in CS; discriminate|].
+  rewrite P in CS. simpl in CS. inversion CS; subst rs. clear CS.
+  set (s := sample_for fname (rec_name r)).
+  assert (I1 : In (s, rec_name r, convert (snd r)) cs).
+  { apply Incl. apply (in_map (fun r0 : list N * list N => (sample_for fname (fst r0), fst r0, snd r0)) ps (as_contig r)). exact Pin. }
+  assert (I2 : In (rec_name r, convert (snd r)) (contigs_of arch s)).
+  { rewrite (collect_per_sample_lemma cs arch C s). unfold of_sample.
+    apply (in_map (fun x : contig3 => (snd (fst x), snd x)) _ (s, rec_name r, convert (snd r))).
+    apply filter_In. split; [exact I1 | apply bytes_eqb_refl]. }
+  exists (map (fun nc : list N * list N => (fst nc, out_letters (snd nc))) (contigs_of arch s)). split.
+  - apply (in_map (fun sc : list N * list (list N * list N) => (fst sc, map (fun nc : list N * list N => (fst nc, out_letters (snd nc))) (snd sc)))
+                  arch (s, contigs_of arch s)).
+    eapply contigs_of_in_arch. exact I2.
+  - rewrite <- out_convert_read_back.
+    apply (in_map (fun nc : list N * list N => (fst nc, out_letters (snd nc))) _ (rec_name r, convert (snd r))). exact I2.
+Qed.
